@@ -101,6 +101,59 @@ def it_next(ex, st, it):
         inner, x = it_next(ex, st, a[0])
         if x is None: return It('cloned', inner), None
         return It('cloned', inner), ex.deref(st, x)
+    if k == 'repeat_with':
+        return it, ex.call_value(st, a[0], [])
+    if k == 'repeat':
+        return it, a[0]
+    if k == 'from_fn':
+        r = ex.call_value(st, a[0], [])
+        return it, (r.f[0] if r.variant == 'Some' else None)
+    if k == 'successors':
+        cur, f = a
+        if cur.variant != 'Some': return it, None
+        cell = st.alloc(cur.f[0])
+        return It('successors', ex.call_value(st, f, [Ref(cell)]), f), cur.f[0]
+    if k == 'inspect':
+        inner, x = it_next(ex, st, a[0])
+        if x is None: return It('inspect', inner, a[1]), None
+        ex.call_value(st, a[1], [Ref(st.alloc(x))])
+        return It('inspect', inner, a[1]), x
+    if k == 'skip_while':
+        inner, f, skipping = a
+        while True:
+            inner, x = it_next(ex, st, inner)
+            if x is None: return It('skip_while', inner, f, False), None
+            if skipping and ex.conc_bool(st, ex.call_value(st, f, [Ref(st.alloc(x))])):
+                continue
+            return It('skip_while', inner, f, False), x
+    if k == 'map_while':
+        inner, f, live = a
+        if not live: return it, None
+        inner, x = it_next(ex, st, inner)
+        if x is None: return It('map_while', inner, f, False), None
+        r = ex.call_value(st, f, [x])
+        if r.variant != 'Some': return It('map_while', inner, f, False), None
+        return It('map_while', inner, f, True), r.f[0]
+    if k == 'scan':
+        inner, cell, f, live = a
+        if not live: return it, None
+        inner, x = it_next(ex, st, inner)
+        if x is None: return It('scan', inner, cell, f, False), None
+        r = ex.call_value(st, f, [Ref(cell), x])
+        if r.variant != 'Some': return It('scan', inner, cell, f, False), None
+        return It('scan', inner, cell, f, True), r.f[0]
+    if k == 'flatten':
+        outer, cur = a
+        while True:
+            if cur is not None:
+                cur, x = it_next(ex, st, cur)
+                if x is not None: return It('flatten', outer, cur), x
+            outer, nxt = it_next(ex, st, outer)
+            if nxt is None: return It('flatten', outer, None), None
+            if isinstance(nxt, Agg) and nxt.name in ('Option', 'Result'):
+                cur = It('list', (nxt.f[0],) if nxt.variant in ('Some', 'Ok') else (), 0)
+            else:
+                cur = to_iter(ex, st, nxt)
     raise Unsupported('iterator kind ' + k)
 
 
@@ -111,6 +164,8 @@ def it_drain(ex, st, it):
         if x is None:
             return out
         out.append(x)
+        if len(out) > 200000:
+            raise Unsupported('iterator does not end (an unbounded generator drained by an eager summary?)')
 
 
 def to_iter(ex, st, v):
@@ -215,6 +270,26 @@ def s_collect(ex, st, fr, args, info):
         return SymResult(any_err, Seq('vec', oks), errval)
     if target.startswith('Vec<') or target == '' or target.startswith('std::vec::Vec<'):
         return Seq('vec', items)
+    if target.startswith('Option<') or target.startswith('std::option::Option<') or target.startswith('core::option::Option<'):
+        outv = []; nones = []
+        for x in items:
+            if isinstance(x, SymResult) and x.opt:
+                nones.append(x.err); outv.append(x.ok); continue
+            if not (isinstance(x, Agg) and x.name == 'Option'):
+                raise Unsupported('collect Option over %r' % (x,))
+            if x.variant == 'None':
+                return NONE
+            outv.append(x.f[0])
+        anyn = simp(z3.Or(*nones)) if nones else z3.BoolVal(False)
+        if z3.is_false(anyn):
+            return Some(Seq('vec', outv))
+        if z3.is_true(anyn):
+            return NONE
+        return SymResult(anyn, Seq('vec', outv), None, opt=True)
+    if target.startswith('BitVec') or target.startswith('bit_vec::BitVec'):
+        return Seq('bitvec', items)
+    if target == '_' or target.startswith('Box<['):
+        return Seq('vec', items)
     raise Unsupported('collect target ' + target)
 
 
@@ -240,7 +315,7 @@ def s_sum(ex, st, fr, args, info):
             ex.assert_sites.setdefault(ex.site(fr) + ':sum', [0, 0, 'sum overflow'])[0] += 1
             if bad:
                 ex.record_panic(st, fr, 'library', 'attempt to add with overflow (Iterator::sum)', model)
-                ex.assume(z3.Not(o.t))
+                ex.assume_or_end(z3.Not(o.t))
         acc = r.f[0]
     return acc
 
@@ -392,7 +467,7 @@ def s_unwrap(ex, st, fr, args, info):
         bad, model = ex.check(v.err)
         if bad:
             ex.record_panic(st, fr, 'library', 'called `Result::unwrap()` on an `Err` value', model)
-            ex.assume(z3.Not(v.err))
+            ex.assume_or_end(z3.Not(v.err))
         return v.ok
     if v.variant in ('Some', 'Ok'):
         return v.f[0]
@@ -400,9 +475,15 @@ def s_unwrap(ex, st, fr, args, info):
 
 
 @summary('Option::is_some')
-def s_is_some(ex, st, fr, args, info): return mkbool(ex.deref(st, args[0]).variant == 'Some')
+def s_is_some(ex, st, fr, args, info):
+    v = ex.deref(st, args[0])
+    if isinstance(v, SymResult) and v.opt: return lift(simp(z3.Not(v.err)), 'bool')
+    return mkbool(v.variant == 'Some')
 @summary('Option::is_none')
-def s_is_none(ex, st, fr, args, info): return mkbool(ex.deref(st, args[0]).variant == 'None')
+def s_is_none(ex, st, fr, args, info):
+    v = ex.deref(st, args[0])
+    if isinstance(v, SymResult) and v.opt: return lift(simp(v.err), 'bool')
+    return mkbool(v.variant == 'None')
 
 
 @summary('Try::branch')
@@ -410,7 +491,7 @@ def s_try_branch(ex, st, fr, args, info):
     v = args[0]
     if isinstance(v, SymResult):
         if ex.conc_bool(st, V(v.err, 'bool')):
-            return Agg('ControlFlow', 'Break', (Err(v.errval),))
+            return Agg('ControlFlow', 'Break', (NONE if v.opt else Err(v.errval),))
         return Agg('ControlFlow', 'Continue', (v.ok,))
     if v.variant in ('Ok', 'Some'):
         return Agg('ControlFlow', 'Continue', (v.f[0],))
@@ -547,7 +628,7 @@ def _checked_refop(op):
             bad, model = ex.possible(o.t, ex.site(fr) + ':lib')
             if bad:
                 ex.record_panic(st, fr, 'library', 'attempt to %s with overflow' % op.lower(), model)
-                ex.assume(z3.Not(o.t))
+                ex.assume_or_end(z3.Not(o.t))
         return r.f[0]
     return f
 
@@ -572,7 +653,7 @@ def s_shift(ex, st, fr, args, info):
         bad, model = ex.possible(big.t, ex.site(fr) + ':lib')
         if bad:
             ex.record_panic(st, fr, 'library', 'attempt to shift %s with overflow' % what, model)
-            ex.assume(z3.Not(big.t))
+            ex.assume_or_end(z3.Not(big.t))
     return binop('Shr' if info['method'] == 'shr' else 'Shl', a, b)
 
 
@@ -612,7 +693,7 @@ def s_abs(ex, st, fr, args, info):
         bad, model = ex.possible(ismin.t, ex.site(fr) + ':lib')
         if bad:
             ex.record_panic(st, fr, 'library', 'attempt to negate with overflow (abs)', model)
-            ex.assume(z3.Not(ismin.t))
+            ex.assume_or_end(z3.Not(ismin.t))
     if a.conc: return mkint(abs(a.t), a.ty)
     return lift(simp(z3.If(a.t < 0, -a.t, a.t)), a.ty)
 
@@ -736,7 +817,7 @@ def s_neg(ex, st, fr, args, info):
         bad, model = ex.possible(ismin.t, ex.site(fr) + ':lib')
         if bad:
             ex.record_panic(st, fr, 'library', 'attempt to negate with overflow', model)
-            ex.assume(z3.Not(ismin.t))
+            ex.assume_or_end(z3.Not(ismin.t))
     return unop('Neg', a)
 
 
@@ -849,7 +930,17 @@ def s_slice_get(ex, st, fr, args, info):
     if isinstance(args[1], V):
         i = ex.conc_int(st, args[1])
         return Some(Ref(r.loc.sub(base + i))) if 0 <= i < n else NONE
-    raise Unsupported('slice::get with a range')
+    ix = args[1]
+    if isinstance(ix, Agg) and ix.name in ('Range', 'RangeFrom', 'RangeTo', 'RangeInclusive', 'RangeFull'):
+        if ix.name == 'Range': a, b = ex.conc_int(st, ix.f[0]), ex.conc_int(st, ix.f[1])
+        elif ix.name == 'RangeFrom': a, b = ex.conc_int(st, ix.f[0]), n
+        elif ix.name == 'RangeTo': a, b = 0, ex.conc_int(st, ix.f[0])
+        elif ix.name == 'RangeInclusive': a, b = ex.conc_int(st, ix.f[0]), ex.conc_int(st, ix.f[1]) + 1
+        else: a, b = 0, n
+        if a > b or b > n:
+            return NONE
+        return Some(Ref(r.loc, (base + a, b - a)))
+    raise Unsupported('slice::get with %r' % (ix,))
 
 
 @summary('slice::contains')
@@ -956,6 +1047,8 @@ def s_find(ex, st, fr, args, info):
 @summary('Option::map', 'Result::map')
 def s_opt_map(ex, st, fr, args, info):
     v = args[0]
+    if isinstance(v, SymResult):
+        return SymResult(v.err, ex.call_value(st, args[1], [v.ok]), v.errval, opt=v.opt)
     if v.variant in ('Some', 'Ok'):
         return Agg(v.name, v.variant, (ex.call_value(st, args[1], [v.f[0]]),))
     return v
@@ -978,6 +1071,8 @@ def s_unwrap_or(ex, st, fr, args, info):
 @summary('Option::ok_or')
 def s_ok_or(ex, st, fr, args, info):
     v = args[0]
+    if isinstance(v, SymResult) and v.opt:
+        return SymResult(v.err, v.ok, args[1])
     return Ok(v.f[0]) if v.variant == 'Some' else Err(args[1])
 
 
@@ -1100,3 +1195,5 @@ def s_from2(ex, st, fr, args, info):
         return Seq('vec', ex.slice_elems(st, args[0]))
     return args[0]
 S['Into::into'] = s_from2
+
+from . import summaries2  # noqa: E402,F401  (registers further summaries into S)
